@@ -32,6 +32,9 @@ pub struct RoCase {
     /// library are evaluated (a log statement with a side effect only acts in such a process)
     #[serde(default)]
     pub logger: bool,
+    /// FAT32: an odd value patched into the boot sector (0 = none; see Run::ro_odd_bpb)
+    #[serde(default)]
+    pub odd_bpb: u8,
 }
 
 fn setup_gen() -> GenCfg {
@@ -125,7 +128,11 @@ pub fn eval(c: &RoCase) -> CaseOut {
             run.abandon_keep_image();
         }
         run.ro_set_io_error_bit = c.io_error_bit;
+        run.ro_odd_bpb = c.odd_bpb;
         run.begin_readonly_with(c.dirty || c.abandon_setup, c.fsinfo_unknown, hint, count)?;
+        if run.sess.is_none() {
+            return Ok(());
+        }
         for (i, op) in c.ro.iter().enumerate() {
             run.exec(1000 + i, op)?;
             if run.sess.is_none() {
@@ -141,7 +148,7 @@ pub fn eval(c: &RoCase) -> CaseOut {
     }
     let t = &run.trace;
     out.nontrivial = t.has("read") && t.has("stats") && (t.has("list") || t.has("labels"));
-    for k in ["read", "stats", "list", "labels", "status", "extents", "ro_remount", "fsinfo_count_stored", "seek"] {
+    for k in ["read", "stats", "list", "labels", "status", "extents", "ro_remount", "fsinfo_count_stored", "seek", "odd_volume_accepted", "odd_volume_refused"] {
         if t.has(k) {
             out.classes.insert(format!("cases_with_{}", k), 1);
         }
@@ -167,7 +174,7 @@ fn strategy() -> impl Strategy<Value = RoCase> {
         let mut mem: Vec<String> = Vec::new();
         let setup = s_raw.iter().flat_map(|r| gen::decode_op(&sg, &nt, cs, r, &mut mem)).collect();
         let ro = r_raw.iter().flat_map(|r| gen::decode_op(&rg, &nt, cs, r, &mut mem)).collect();
-        RoCase { vol, setup, ro, dirty: flags & 3 == 0, fsinfo_unknown: flags & 12 == 0, end_by_drop: flags & 16 != 0, abandon_setup: flags % 5 == 0, io_error_bit: flags % 7 == 3, odd_hint: if flags & 32 != 0 { 1 + (flags >> 6) + 3 * (flags & 1) } else { 0 }, odd_count: if flags & 0xC0 == 0xC0 { 1 + (flags & 1) } else { 0 }, logger: false }
+        RoCase { vol, setup, ro, dirty: flags & 3 == 0, fsinfo_unknown: flags & 12 == 0, end_by_drop: flags & 16 != 0, abandon_setup: flags % 5 == 0, io_error_bit: flags % 7 == 3, odd_hint: if flags & 32 != 0 { 1 + (flags >> 6) + 3 * (flags & 1) } else { 0 }, odd_count: if flags & 0xC0 == 0xC0 { 1 + (flags & 1) } else { 0 }, logger: false, odd_bpb: if flags % 11 == 4 { 1 + (flags >> 5) % 3 } else { 0 } }
     })
 }
 
@@ -177,7 +184,7 @@ pub fn replay(v: &serde_json::Value) -> Result<Option<String>, String> {
 }
 
 pub fn run(tier: Tier, seed: u64) -> i32 {
-    let rule = "volumes of every FAT width populated by a generated mutating history (library-formatted and imggen geometries), then cleanly unmounted and raw-edited to be clean or dirty, or abandoned with open unflushed handles (a real power cut: half-updated entries included), with the FS-info count present, unknown or out of range and the next-free hint valid or out of range (last+1, last+2, 0x0FFFFFFF, 0, 1); a generated read-only session (mount, list, open existing/missing, seek, read, extents, labels, status flags, stats, handle drops, unmount or drop, repeated remounts) runs on an instrumented device; oracle = the device's write log over the whole session is empty, sole exception FAT32 + stats() + no usable count at mount (unknown / out of range / volume dirty), where writes must lie inside the FS-info sector and store the true count; a third of the sessions again with a logger installed that accepts every level (arguments of all log statements evaluated and formatted); non-trivial = session reads file data, calls stats and lists or queries labels; distinct by hash of the case";
+    let rule = "volumes of every FAT width populated by a generated mutating history (library-formatted and imggen geometries), then cleanly unmounted and raw-edited to be clean or dirty, or abandoned with open unflushed handles (a real power cut: half-updated entries included), with the FS-info count present, unknown or out of range and the next-free hint valid or out of range (last+1, last+2, 0x0FFFFFFF, 0, 1), one FAT32 volume in eleven with an odd boot-sector value (FS-info sector field 0, backup boot sector field 0, FS-info trail signature zeroed: a refused mount ends the case, an accepted volume is held to the property with the exception tied to the sector that holds the information structure); a generated read-only session (mount, list, open existing/missing, seek, read, extents, labels, status flags, stats, handle drops, unmount or drop, repeated remounts) runs on an instrumented device; oracle = the device's write log over the whole session is empty, sole exception FAT32 + stats() + no usable count at mount (unknown / out of range / volume dirty), where writes must lie inside the FS-info sector and store the true count; a third of the sessions again with a logger installed that accepts every level (arguments of all log statements evaluated and formatted); non-trivial = session reads file data, calls stats and lists or queries labels; distinct by hash of the case";
     let mut rep = Report::new("C13", tier, seed, "exploration", rule);
     rep.assume("access-date updating is left disabled (the property's condition)");
     let mut reg = Block::new("regress");
